@@ -218,7 +218,10 @@ func (s *snapshotSink) done(err error) (snapshotMeta, error) {
 	verifPoint(s.snaps, "snap.metarenamed")
 	temp = nil
 	s.snaps.mu.Lock()
-	s.snaps.index, s.snaps.term = s.meta.index, s.meta.term
+	if s.meta.index > s.snaps.index {
+		// a snapshot taken locally may finish after a newer one was installed
+		s.snaps.index, s.snaps.term = s.meta.index, s.meta.term
+	}
 	s.snaps.mu.Unlock()
 	_ = s.snaps.applyRetain() // todo: trace error
 	verifPoint(s.snaps, "snap.retained")
